@@ -43,19 +43,33 @@ def tla_project(proj, mem):
     return {"name": cps(proj.get("name", "PROG")), "templates": tpls, "symbols": syms}, m
 
 
+def id_tables():
+    """id -> text tables for vendors / product types: the literal data tables of the library (not the bidirectional lookup
+    dicts derived from them, whose construction is part of what is verified)."""
+    from pycomm3.cip import status_info as si
+    from pycomm3.cip import VENDORS, PRODUCT_TYPES
+    v = getattr(si, "_VENDORS", None) or {k: x for k, x in VENDORS.items() if isinstance(k, int)}
+    p = getattr(si, "_PRODUCT_TYPES", None) or {k: x for k, x in PRODUCT_TYPES.items() if isinstance(k, int)}
+    return v, p
+
+
+def tla_identity(ident):
+    i = dict(ident)
+    i["serial_b"] = p32(i["serial"])
+    i.pop("serial")
+    VENDORS, PRODUCT_TYPES = id_tables()
+    vt, pt = VENDORS.get(i["vendor"]), PRODUCT_TYPES.get(i["product_type"])
+    i["vendor_text"] = {"has": 1 if isinstance(vt, str) else 0, "s": cps(vt) if isinstance(vt, str) else []}
+    i["ptype_text"] = {"has": 1 if isinstance(pt, str) else 0, "s": cps(pt) if isinstance(pt, str) else []}
+    i.setdefault("ip", [10, 0, 0, 1])
+    i.setdefault("state", 3)
+    return i
+
+
 def tla_cfg(sc, status_texts=None):
     tgt = dict(sc["target"])
     if tgt.get("identity"):
-        i = dict(tgt["identity"])
-        i["serial_b"] = p32(i["serial"])
-        i.pop("serial")
-        from pycomm3.cip import VENDORS, PRODUCT_TYPES
-        vt, pt = VENDORS.get(i["vendor"]), PRODUCT_TYPES.get(i["product_type"])
-        i["vendor_text"] = {"has": 1 if isinstance(vt, str) else 0, "s": cps(vt) if isinstance(vt, str) else []}
-        i["ptype_text"] = {"has": 1 if isinstance(pt, str) else 0, "s": cps(pt) if isinstance(pt, str) else []}
-        i.setdefault("ip", [10, 0, 0, 1])
-        i.setdefault("state", 3)
-        tgt["identity"] = i
+        tgt["identity"] = tla_identity(tgt["identity"])
     if "clock" in tgt:
         tgt["clock_b"] = list(int(tgt["clock"]).to_bytes(8, "little"))
         tgt.pop("clock")
@@ -82,6 +96,8 @@ def tla_cfg(sc, status_texts=None):
 def slim_event(e):
     if e["k"] == "ret":
         return {k: v for k, v in e.items() if k not in ("tb", "tstate")}
+    if e["k"] == "call" and e["api"] == "_env" and "identity" in e["intent"] and "serial" in e["intent"]["identity"]:
+        return dict(e, intent=dict(e["intent"], identity=tla_identity(e["intent"]["identity"])))
     return e
 
 
